@@ -123,6 +123,55 @@ func (c *Chain) Close() {
 
 func (c *Chain) Tip() *types.Block { return c.Blocks[len(c.Blocks)-1] }
 
+// CrashAt submits block b (already executed: res) with a process stop at the named persistence point
+// (the verif crash hook panics there), closes the handles without committing pending batches, and
+// restarts the ledger from the same directory. It reports whether the restarted ledger holds b.
+func (c *Chain) CrashAt(b *types.Block, point string) (held bool, err error) {
+	crashed := false
+	func() {
+		defer func() {
+			if r := recover(); r != nil {
+				if s, ok := r.(string); ok && s == "lworld-crash" {
+					crashed = true
+					return
+				}
+				panic(r)
+			}
+		}()
+		ledgerstore.VerifCrashHook = func(p string) {
+			if p == point {
+				ledgerstore.VerifCrashHook = nil
+				panic("lworld-crash")
+			}
+		}
+		defer func() { ledgerstore.VerifCrashHook = nil }()
+		res, e := c.Store.ExecuteBlock(b)
+		if e != nil {
+			err = e
+			return
+		}
+		err = c.Store.SubmitBlock(b, res)
+	}()
+	if err != nil {
+		return false, err
+	}
+	if !crashed {
+		return false, fmt.Errorf("crash point %s not reached", point)
+	}
+	c.Store.Close()
+	SetGlobals(c.NetworkID, c.VBFT)
+	ldg, e := ledger.NewLedger(c.Dir)
+	if e != nil {
+		return false, e
+	}
+	c.Ledger = ldg
+	c.Store = ldg.GetStore().(*ledgerstore.LedgerStoreImp)
+	if e := ldg.Init(pubs(c.Vals), c.Genesis); e != nil {
+		return false, e
+	}
+	return c.Store.GetCurrentBlockHeight() == b.Header.Height, nil
+}
+
 // ---------------------------------------------------------------------------------------------
 // transactions
 
